@@ -42,7 +42,42 @@ def parseAdd (s : String) : Option (Bytes × Nat × Option Nat) :=
     | _, _ => none
   | _ => none
 
-def parseRead (s : String) : Option (Option Nat × Option Nat) :=
+/-- the pack-size part of a read: the stored file with its true size / with a wrong size argument, or a MODIFIED file read with
+its own true size (`F<k>` junk in front, `E<k>` junk appended, `FB` copy of the first blob in front, `FP` the pack twice) -/
+inductive PsSpec where
+  | true_
+  | abs (v : Nat)
+  | front (k : Nat)
+  | endx (k : Nat)
+  | frontBlob
+  | dup
+
+def parsePs (p : String) : Option PsSpec :=
+  if p = "-" then some .true_
+  else if p = "FB" then some .frontBlob
+  else if p = "FP" then some .dup
+  else if p.startsWith "F" then (p.drop 1).toString.toNat?.bind fun k => if k ≤ 1048576 then some (.front k) else none
+  else if p.startsWith "E" then (p.drop 1).toString.toNat?.bind fun k => if k ≤ 1048576 then some (.endx k) else none
+  else p.toNat?.bind fun v => if v < 4294967296 then some (.abs v) else none
+
+/-- the junk of `F<k>` / `E<k>` (the same bytes as in harness/src/c08.rs `junk`) -/
+def junk (k : Nat) : Bytes := (List.range k).map fun i => UInt8.ofNat (i * 37 + 11)
+
+/-- the file that is read and the pack size handed to `from_file` -/
+def PsSpec.apply (ps : PsSpec) (file : Bytes) (blobs : List IndexBlob) : Bytes × Nat :=
+  match ps with
+  | .true_ => (file, file.length)
+  | .abs v => (file, v)
+  | .front k => (junk k ++ file, k + file.length)
+  | .endx k => (file ++ junk k, file.length + k)
+  | .frontBlob =>
+    let l0 := match blobs with
+      | b :: _ => b.loc.length
+      | [] => 0
+    (file.take l0 ++ file, (file.take l0).length + file.length)
+  | .dup => (file ++ file, file.length + file.length)
+
+def parseRead (s : String) : Option (Option Nat × PsSpec) :=
   match s.splitOn ":" with
   | [h, p] =>
     let f (x : String) : Option (Option Nat) :=
@@ -50,7 +85,7 @@ def parseRead (s : String) : Option (Option Nat × Option Nat) :=
         match x.toNat? with
         | some n => if n < 4294967296 then some (some n) else none
         | none => none
-    match f h, f p with
+    match f h, parsePs p with
     | some h, some p => some (h, p)
     | _, _ => none
   | _ => none
@@ -278,8 +313,9 @@ def handle : List String → String
       let (file, blobs) := p.finish toyEnc
       let n := file.length
       let ff := reads.map fun (hint, ps) =>
-        let trueSize := ps.isNone || ps == some n
-        match fromFile toyDec file hint (ps.getD n) with
+        let (f', sz) := ps.apply file blobs
+        let trueSize := sz == n
+        match fromFile toyDec f' hint sz with
         | .ok bl => if bl = blobs then "=" else "ne"
         | .error e => if trueSize then errStr e else "e"
       let bl := blobs.map fun b =>
@@ -312,10 +348,10 @@ def handle : List String → String
         else match x.toNat? with
           | some v => if v < 4294967296 then some (some v) else none
           | none => none
-      let read? (r : String) : Option (Option Nat × Option Nat) :=
+      let read? (r : String) : Option (Option Nat × PsSpec) :=
         match r.splitOn ":" with
         | [h, ps] =>
-          match hint? h, (if ps = "-" then some none else ps.toNat?.bind fun v => if v < 4294967296 then some (some v) else none) with
+          match hint? h, parsePs ps with
           | some h, some ps => some (h, ps)
           | _, _ => none
         | _ => none
@@ -323,8 +359,9 @@ def handle : List String → String
       | none => "bad-op"
       | some reads =>
         let ff := reads.map fun (hint, ps) =>
-          let trueSize := ps.isNone || ps == some flen
-          match fromFile toyDec file hint (ps.getD flen) with
+          let (f', sz) := ps.apply file blobs
+          let trueSize := sz == flen
+          match fromFile toyDec f' hint sz with
           | .ok bl => if bl = blobs then "=" else "ne"
           | .error e => if trueSize then errStr e else "e"
         let bstr (b : IndexBlob) :=
